@@ -82,20 +82,21 @@ def must_follow(ctx, P, views, iters):
         r = view.resolve("take_servers_off_duty")
         if r:
             cls, fn = r
+            COPIES = ("self.servers[::1]", "self.servers[:]", "list(self.servers)", "self.servers.copy()")
             w = Walker(P, view, keep=lambda e: (e.kind == "call" and e.d["meth"] in ("interrupt_service", "kill_server")) or e.kind in ("iter", "loopexit") or
-                       (e.kind == "assign" and e.d.get("local") and e.d["target"] == "to_delete"), inline=lambda ev: False, loop_iters=iters, track=lambda t, f: False)
+                       (e.kind == "assign" and e.d.get("local") and e.d["value"].replace(" ", "") in COPIES), inline=lambda ev: False, loop_iters=iters, track=lambda t, f: False)
             for st in w.paths_of(cls, fn):
                 ints = [e for e in st.events if e.kind == "call" and e.d["meth"] == "interrupt_service"]
                 if not ints or st.status == "raise":
                     continue
                 n_inst += 1
-                copies = [e for e in st.events if e.kind == "assign" and e.d["value"].replace(" ", "") in ("self.servers[::1]", "self.servers[:]", "list(self.servers)", "self.servers.copy()")]
-                COPIES = ("self.servers[::1]", "self.servers[:]", "list(self.servers)", "self.servers.copy()")
+                copies = [e for e in st.events if e.kind == "assign"]
+                names = tuple(unparse(e.d["target_node"]) for e in copies)
                 killloop = [e for e in st.events if e.kind in ("iter", "loopexit") and isinstance(e.node, ast.For)
-                            and unparse(e.node.iter).replace(" ", "") in COPIES + ("to_delete",)
-                            and any(isinstance(k, ast.Call) and call_name(k) == "kill_server" for k in ast.walk(e.node))]
+                            and unparse(e.node.iter).replace(" ", "") in COPIES + names
+                            and any(isinstance(k, ast.Call) and call_name(k) == "kill_server" and k.args and unparse(k.args[0]) == unparse(e.node.target) for k in ast.walk(e.node))]
                 ob.ok("%s.take_servers_off_duty:preemptive" % view.name)
-                if not copies or not killloop:
+                if not killloop:
                     viol(cls, "take_servers_off_duty", "interrupt_service without killing all servers", "interrupted-server-survives",
                          "pre-emptive shift end: every server (copy of self.servers) must be killed after its customer is interrupted", ints[0].where, st)
         # (c) change_shift: add_new_servers => begin_service_if_possible_change_shift
